@@ -168,7 +168,8 @@ def Res.addWarning (r : Res) (w : String) : Res :=
 def Res.warnings : Res → List String
   | .ing c => c.warnings | .vs c => c.warnings | .ts c => c.warnings
 
-def metaEq (a b : Meta) : Bool := a.ns = b.ns && a.name = b.name && a.gen = b.gen
+/-- `compareObjectMetas`: namespace, name, UID (a re-created object is not the one it replaces — fix of S-C05-b) and generation. -/
+def metaEq (a b : Meta) : Bool := a.ns = b.ns && a.name = b.name && a.uid = b.uid && a.gen = b.gen
 def metaEqAnn (a b : Meta) : Bool := metaEq a b && a.ann = b.ann
 
 def listAll2 {α} (f : α → α → Bool) : List α → List α → Bool
